@@ -13,7 +13,7 @@ BUILTINS = {'len', 'ord', 'chr', 'int', 'float', 'str', 'callable', 'isinstance'
             'set', 'sorted', 'reversed', 'filter', 'map', 'zip', 'any', 'all', 'repr', 'print',
             'IndexError', 'ValueError', 'TypeError', 'KeyError'}
 SPEC_FORMS = {'old', 'forall', 'exists', 'implies', 'holds', 'fresh', 'iff', 'ite', 'kind_is',
-              'same_str', 'allocated', 'unchanged', 'owned'}
+              'same_str', 'allocated', 'unchanged', 'owned', 'chars_hold'}
 
 LIST_MUTATORS = {'append', 'pop', 'clear', 'insert', 'extend', 'sort', 'reverse', 'remove'}
 
@@ -422,6 +422,12 @@ class Exec(Engine):
             b = self.ch_to_str(b)
         if isinstance(b, VStr):
             arr, off, n = str_parts(b)
+            if isinstance(lo, VInt) and isinstance(hi, VInt) and not st.spec:
+                # bounds provably inside the string: no clamping terms (keeps later queries simple)
+                inside = AND(lo.t >= 0, lo.t <= hi.t, hi.t <= n)
+                v, _, _, _ = smt.decide(list(st.pc) + self.base_axioms() + [NOT(inside)], want_model=False, ext=False)
+                if v == 'unsat':
+                    return [(st, VStr(arr, simp(off + lo.t), simp(hi.t - lo.t)))]
             s, ln = self.slice_bounds(st, lo, hi, n)
             return [(st, VStr(arr, simp(off + s), ln))]
         if isinstance(b, VList):
